@@ -30,14 +30,16 @@ import (
 )
 
 type fault struct {
-	Op string `json:"op"`
-	At int    `json:"at"`
+	Op    string `json:"op"`
+	At    int    `json:"at"`
+	After int    `json:"after"` // replay-late: the copy follows this frame
 }
 
 type act struct {
-	Name string `json:"name"`
-	Op   string `json:"op"`
-	At   int    `json:"at"`
+	Name  string `json:"name"`
+	Op    string `json:"op"`
+	At    int    `json:"at"`
+	After int    `json:"after"`
 }
 
 var breaksFraming = map[string]bool{"flip-len": true, "truncate": true, "garbage-raw": true}
@@ -50,7 +52,10 @@ type runner struct {
 }
 
 // run sets up a real link, sends n frames from `dir` to its peer with the plan applied on the wire.
-func (r *runner) run(plan []fault, dir string, n int, sizes []int, garbageLen int) (events []any, desc map[string]any) {
+// scale > 1: every model frame stands for `scale` link frames of which only the first survives the wire (the
+// adversary drops the rest), so that a distance of W model frames is W*scale sequence numbers - the real replay
+// window of 64 is met exactly with the model's W = 2 and scale 32.
+func (r *runner) run(plan []fault, dir string, n int, sizes []int, garbageLen int, scale int) (events []any, desc map[string]any) {
 	world.InstallLogCapture()
 	w := world.NewWorld()
 	ids := mesh.Identities(2)
@@ -67,12 +72,26 @@ func (r *runner) run(plan []fault, dir string, n int, sizes []int, garbageLen in
 	var held []byte
 	heldAt := 0
 	swallow := map[int]bool{}
+	copies := map[int][]byte{}     // replay-late: frame id -> its link frame
+	replayAfter := map[int][]int{} // frame id -> ids to replay right behind it
+	for _, f := range plan {
+		if f.Op == "replay-late" {
+			replayAfter[f.After] = append(replayAfter[f.After], f.At)
+		}
+	}
 	hook := func(p *linkworld.Proxy, m linkworld.Msg) [][]byte {
 		if m.Dir != dir || m.Idx <= 3 {
 			return nil
 		}
 		k := m.Idx - 3
 		data := m.Data
+		if scale > 1 {
+			if (k-1)%scale != 0 {
+				return [][]byte{} // filler frames never reach the receiver
+			}
+			k = (k-1)/scale + 1
+		}
+		copies[k] = append([]byte(nil), data...)
 		if swallow[k] {
 			return [][]byte{}
 		}
@@ -110,6 +129,8 @@ func (r *runner) run(plan []fault, dir string, n int, sizes []int, garbageLen in
 			case "swap":
 				held, heldAt = d, k
 				out = out[:len(out)-1]
+			case "replay-late":
+				// handled when the frame it follows passes
 			case "drop":
 				out = out[:len(out)-1]
 			case "garbage-framed":
@@ -123,10 +144,15 @@ func (r *runner) run(plan []fault, dir string, n int, sizes []int, garbageLen in
 				out = append([][]byte{g}, out...)
 			}
 		}
+		for _, id := range replayAfter[k] {
+			if c := copies[id]; c != nil {
+				out = append(out, append([]byte(nil), c...))
+			}
+		}
 		return out
 	}
 	res := linkworld.Connect(a, b, hook, 300*time.Millisecond)
-	desc = map[string]any{"plan": plan, "dir": dir, "frames": n, "sizes": sizes, "garbage_len": garbageLen}
+	desc = map[string]any{"plan": plan, "dir": dir, "frames": n, "sizes": sizes, "garbage_len": garbageLen, "scale": scale}
 	if res.LinkA == nil || res.LinkB == nil {
 		r.c.Broken("link set-up failed: %v %v", res.ErrA, res.ErrB)
 		return nil, desc
@@ -144,12 +170,20 @@ func (r *runner) run(plan []fault, dir string, n int, sizes []int, garbageLen in
 	var payloads [][]byte
 	bigMode := false
 	noProgress := 0
+	realSent := 0
+	filler := false
 	send := func(i int) {
 		size := sizes[i%len(sizes)]
 		if bigMode {
 			size = 10000
 		}
 		mt := msgTypes[(i+len(plan))%len(msgTypes)]
+		if scale > 1 {
+			mt = frame.NetworkTraffic // one sequence space for all frames of a scaled run
+			if filler {
+				size = 1
+			}
+		}
 		payload := make([]byte, size)
 		r.rng.Read(payload)
 		var apx []byte
@@ -165,8 +199,11 @@ func (r *runner) run(plan []fault, dir string, n int, sizes []int, garbageLen in
 			panic(err)
 		}
 		raw, _ := f.FrameDataWithMargins(0, 0)
-		sent = append(sent, append([]byte(nil), raw...))
-		payloads = append(payloads, payload)
+		if !filler {
+			sent = append(sent, append([]byte(nil), raw...))
+			payloads = append(payloads, payload)
+		}
+		realSent++
 		if mt.IsPriority() {
 			_ = link.SendPriority(f)
 		} else {
@@ -176,10 +213,10 @@ func (r *runner) run(plan []fault, dir string, n int, sizes []int, garbageLen in
 		// the writer prefers the priority queue: wait until this frame crossed the proxy so that
 		// link-frame indexes follow the order of sending
 		deadline := time.Now().Add(150 * time.Millisecond)
-		for res.Proxy.NSent(dir) < 3+len(sent) && time.Now().Before(deadline) && !link.IsClosing() {
+		for res.Proxy.NSent(dir) < 3+realSent && time.Now().Before(deadline) && !link.IsClosing() {
 			time.Sleep(100 * time.Microsecond)
 		}
-		if res.Proxy.NSent(dir) < 3+len(sent) {
+		if res.Proxy.NSent(dir) < 3+realSent {
 			noProgress++ // the receiving end does not take bytes off the wire any more
 		} else {
 			noProgress = 0
@@ -187,6 +224,13 @@ func (r *runner) run(plan []fault, dir string, n int, sizes []int, garbageLen in
 	}
 	for i := 0; i < n; i++ {
 		send(i)
+		if scale > 1 {
+			filler = true
+			for k := 1; k < scale; k++ {
+				send(i)
+			}
+			filler = false
+		}
 	}
 	if held != nil { // a swap at the last frame: release it with one more frame
 		send(n)
@@ -326,7 +370,7 @@ func run(c *vf.Ctx) {
 			_ = json.Unmarshal(g.Edges[ei].Act, &a)
 			pl := planOf[s]
 			if a.Name == "fault" {
-				pl = append(append([]fault(nil), pl...), fault{a.Op, a.At})
+				pl = append(append([]fault(nil), pl...), fault{a.Op, a.At, a.After})
 				plans[fmt.Sprint(pl)] = pl
 			}
 			planOf[t] = pl
@@ -334,12 +378,19 @@ func run(c *vf.Ctx) {
 		}
 	}
 	keys := make([]string, 0, len(plans))
-	for k := range plans {
-		if !strings.Contains(k, " 0}") { // faults on garbage units have no frame index
+	for k, pl := range plans {
+		ok := true
+		for _, f := range pl {
+			if f.At == 0 { // faults on garbage units have no frame index
+				ok = false
+			}
+		}
+		if ok {
 			keys = append(keys, k)
 		}
 	}
 	sort.Strings(keys)
+	allKeys := append([]string(nil), keys...)
 	c.Stage("M", map[string]any{"distinct": mc.Distinct, "fault_plans": len(keys)})
 	c.Logf("M: %d states, %d fault plans", mc.Distinct, len(keys))
 	rng := rand.New(rand.NewSource(c.Seed))
@@ -361,9 +412,10 @@ func run(c *vf.Ctx) {
 	var events []any
 	var descs []map[string]any
 	var starts []int
+	scaleOf := 1
 	runOne := func(pl []fault, dir string, glen int, sizes []int) {
 		t0 := time.Now()
-		ev, desc := r.run(pl, dir, 4, sizes, glen)
+		ev, desc := r.run(pl, dir, 4, sizes, glen, scaleOf)
 		if d := time.Since(t0); d > 2*time.Second || os.Getenv("VERIF_C05_DEBUG") != "" {
 			c.Logf("link %v dir=%s glen=%d took %v: %v", pl, dir, glen, d.Round(time.Millisecond), ev[len(ev)-1])
 		}
@@ -389,8 +441,27 @@ func run(c *vf.Ctx) {
 	}
 	// well-framed garbage of every short length, on its own
 	for _, gl := range []int{4, 5, 8, 11, 12, 13, 27, 28, 29, 64} {
-		runOne([]fault{{"garbage-framed", 2}}, "A", gl, sizeSets[0])
+		runOne([]fault{{"garbage-framed", 2, 0}}, "A", gl, sizeSets[0])
 	}
+	// window-scaled pass: the plans made of losses, copies and reorderings only, with every model frame standing
+	// for 32 link frames: the model's window of 2 becomes the real window of 64 exactly
+	scaleOf = 32
+	nScaled := 0
+	for i, k := range allKeys {
+		only := true
+		for _, f := range plans[k] {
+			if f.Op != "drop" && f.Op != "dup" && f.Op != "swap" && f.Op != "replay-late" {
+				only = false
+			}
+		}
+		if !only {
+			continue
+		}
+		nScaled++
+		runOne(plans[k], []string{"A", "B"}[i%2], 28, []int{40, 41, 42, 43})
+	}
+	scaleOf = 1
+	c.Extra("window_scaled_links", nScaled)
 	c.Stage("R", map[string]any{"links": len(descs), "events": len(events)})
 	c.Logf("R: %d links, %d events", len(descs), len(events))
 	base := 0
